@@ -389,8 +389,48 @@ def f_index_brie(p):
     return a
 
 
+def f_eqrel_input(p):
+    """an input relation with eqrel storage (its contents are the closure of the loaded / inserted pairs)"""
+    r = p.r
+    n = p.fresh("qi")
+    p.decl(n, [("x", "number"), ("y", "number")], "eqrel", output=False)
+    dom = p.meta["domain"]
+    p.facts[n] = sorted(set(("%d" % r.randrange(dom), "%d" % r.randrange(dom)) for _ in range(r.randrange(2, 12))))
+    p.meta.setdefault("eqrel_inputs", []).append(n)
+    m = p.fresh("qo")
+    p.decl(m, [("x", "number"), ("y", "number")], p.repr_for(2))
+    p.rule("%s(x,y) :- %s(x,y), x < y." % (m, n))
+    c = p.fresh("qc")
+    p.decl(c, [("x", "number"), ("c", "number")])
+    p.rule("%s(x,c) :- n1(x), c = count : { %s(x,_) }." % (c, n))
+    return m
+
+
+def f_typed_input(p):
+    """input relations with unsigned / float / symbol columns and non-default storage"""
+    r = p.r
+    n = p.fresh("ti")
+    p.decl(n, [("u", "unsigned"), ("f", "float"), ("s", "symbol")], output=False)
+    rows = set()
+    for _ in range(r.randrange(3, 15)):
+        u = r.choice([r.randrange(10), r.randrange(10), 2147483648 + r.randrange(5), 4294967290 + r.randrange(5)])
+        rows.add(("%d" % u, "%g" % (r.randrange(-40, 40) / 4.0), r.choice(["a", "b b", "c_d", "x1", "", "Z"]) or "e"))
+    p.facts[n] = sorted(rows)
+    m = p.fresh("to")
+    p.decl(m, [("u", "unsigned"), ("f", "float"), ("s", "symbol")], p.repr_for(3))
+    p.rule("%s(u,f,s) :- %s(u,f,s), u > 2." % (m, n))
+    b = p.fresh("bi")
+    p.decl(b, [("x", "number"), ("y", "number")], r.choice(["brie", "btree"]), output=False)
+    dom = p.meta["domain"]
+    p.facts[b] = sorted(set(("%d" % r.randrange(-3, dom), "%d" % r.randrange(dom)) for _ in range(r.randrange(2, 20))))
+    o = p.fresh("bo")
+    p.decl(o, [("x", "number"), ("y", "number")])
+    p.rule("%s(x,z) :- %s(x,y), e1(y,z)." % (o, b))
+    return m
+
+
 FRAGMENTS = [f_exists, f_exists_idx, f_facts, f_index_brie, f_outer_aggr2, f_filter, f_join, f_join3, f_tc, f_mutual, f_negation, f_aggr, f_outer_aggr, f_strings, f_records, f_adt, f_eqrel, f_multi,
-             f_arith, f_indexed]
+             f_arith, f_indexed, f_eqrel_input, f_typed_input]
 
 
 def f_input_derived(p):
@@ -410,16 +450,18 @@ def f_input_derived(p):
 
 
 def gen_c21(seed, size="quick"):
-    """programs for the embedding-API histories: no eqrel, no relation that is both input and derived (the history model keeps
-    inputs and derived relations apart)"""
-    return gen_c03(seed, size, exclude=(f_eqrel, f_input_derived))
+    """programs for the embedding-API histories: no relation that is both input and derived (the history model keeps inputs and
+    derived relations apart); often with eqrel relations, eqrel / brie / typed input relations"""
+    rr = random.Random(seed ^ 0x21)
+    always = tuple(f for f, pr in ((f_eqrel, 0.3), (f_eqrel_input, 0.4), (f_typed_input, 0.4)) if rr.random() < pr)
+    return gen_c03(seed, size, exclude=(f_input_derived,), always=always)
 
 
 def gen_c20(seed, size="quick"):
     """C03's fragment without eqrel storage (the statement excludes it); every IDB relation is an output; half of the programs
     also contain relations that are both loaded from facts and defined by rules."""
     r = random.Random(seed ^ 0x20)
-    return gen_c03(seed, size, exclude=(f_eqrel, f_input_derived), always=((f_input_derived,) if r.random() < 0.5 else ()))
+    return gen_c03(seed, size, exclude=(f_eqrel, f_eqrel_input, f_input_derived), always=((f_input_derived,) if r.random() < 0.5 else ()))
 
 
 def gen_c03c(seed, size="quick"):
